@@ -10,6 +10,7 @@ import (
 
 	"github.com/boombuler/barcode"
 	"pgregory.net/rapid"
+	"verif/enc"
 )
 
 // modules1D reads a plain (black on white) 1D barcode into a module row. Any pixel that is
@@ -214,6 +215,9 @@ func foreignWarmup(own ...string) {
 			encodeSpec(s)
 		}
 	}
+	if shard()%4 == 1 { // and an application that uses the exported utils API with its own field parameters
+		enc.ForeignUtils(shard())
+	}
 }
 
 // latin1Text: valid UTF-8 text whose runes are all <= U+00FF (ASCII letters mixed with U+00A0..U+00FF), the input
@@ -249,6 +253,8 @@ func colourVariant(t TB, prop, check string, c any, spec EncSpec, plain [][]bool
 		spec.Scheme = &SchemeSpec{Model: "nrgba", FG: ColorSpec{Model: "nrgba", V: [4]uint16{0, 0, 90, 255}}, BG: ColorSpec{Model: "nrgba", V: [4]uint16{255, 255, 255, 0}}}
 	case 3: // colours of other types than the scheme's model produces
 		spec.Scheme = &SchemeSpec{Model: "gray", FG: ColorSpec{Model: "rgba", V: [4]uint16{0, 0, 0, 255}}, BG: ColorSpec{Model: "nrgba", V: [4]uint16{0, 0, 0, 0}}}
+	case 5: // colour and model values that cannot be compared with == (a slice-based colour type, color.Palette as model)
+		spec.Scheme = &SchemeSpec{Model: "palette", FG: ColorSpec{Model: "slice", V: [4]uint16{0, 0, 30000, 65535}}, BG: ColorSpec{Model: "slice", V: [4]uint16{65535, 65535, 65535, 65535}}}
 	case 4: // a caller-defined colour type and *image.Uniform
 		spec.Scheme = &SchemeSpec{Model: "rgba", FG: ColorSpec{Model: "custom", V: [4]uint16{0, 0, 0, 65535}}, BG: ColorSpec{Model: "uniform", V: [4]uint16{255, 255, 255, 255}}}
 	default:
@@ -276,4 +282,17 @@ func colourVariant(t TB, prop, check string, c any, spec EncSpec, plain [][]bool
 	if !samePattern(pat, plain) {
 		failf(t, prop, check, c, "the WithColor entry point of the same call draws a %dx%d module pattern that differs from the plain entry point's %dx%d pattern", len(pat[0]), len(pat), len(plain[0]), len(plain))
 	}
+}
+
+// sameValue: a == b for interface values, also when their dynamic type is not comparable (slices: a caller-defined
+// colour type, color.Palette as a model), where == would panic.
+func sameValue(a, b any) bool {
+	ta, tb := reflect.TypeOf(a), reflect.TypeOf(b)
+	if ta != tb {
+		return false
+	}
+	if ta == nil || ta.Comparable() {
+		return a == b
+	}
+	return reflect.DeepEqual(a, b)
 }
